@@ -54,14 +54,14 @@ type c31Spec struct {
 }
 
 var c31Specs = []c31Spec{
-	{"tls12-ecdsa-gcm", v12, 0xc02b, tlspair.P256, false, true},
+	{"tls12-ecdsa-gcm", v12, 0xc02b, tlspair.P256, false, false},
 	{"tls13-aes128", v13, 0x1301, tlspair.P256, false, false},
 	{"tls12-rsa-cbc", v12, 0x002f, tlspair.RSA2048, false, true},
 	{"tls13-aes256-sha384", v13, 0x1302, tlspair.P256, false, false},
 	{"tls10-ecdsa-cbc", v10, 0xc009, tlspair.P256, false, true},
 	{"tls12-chacha-clientcert", v12, 0xcca9, tlspair.P256, true, false},
 	{"tls13-chacha-clientcert", v13, 0x1303, tlspair.Ed25519, true, false},
-	{"tls11-ecdhe-rsa", v11, 0xc013, tlspair.RSA2048, false, false},
+	{"tls11-ecdhe-rsa", v11, 0xc013, tlspair.RSA2048, false, true},
 }
 
 type ticketKeyMat struct {
@@ -183,9 +183,9 @@ func (b *c31Base) present(c *core.Ctx, zs *ztls.Config, ticket []byte, route str
 		if si := suiteByID[s.Suite]; si != nil && si.KX != "rsa" {
 			exts = append(exts, &ztls.SupportedCurvesExtension{Curves: []ztls.CurveID{ztls.CurveP256, ztls.CurveP384}}, &ztls.PointFormatExtension{Formats: []uint8{0}})
 		}
-		if s.Vers == v12 {
-			exts = append(exts, &ztls.SignatureAlgorithmExtension{SignatureAndHashes: []uint16{0x0403, 0x0401, 0x0503, 0x0501, 0x0201, 0x0203}})
-		}
+		// (TLS 1.2 ECDHE sessions are not presented through this route: the fingerprint API's
+		// SignatureAlgorithmExtension refuses ECDSA pairs, and without the extension the client rejects the
+		// server's SHA-256 signature; the RSA key exchange and TLS <= 1.1 need no signature_algorithms)
 		zc.ClientFingerprintConfiguration = &ztls.ClientFingerprintConfiguration{HandshakeVersion: s.Vers, SessionID: sid,
 			CipherSuites: []uint16{s.Suite}, CompressionMethods: []uint8{0}, Extensions: exts}
 	}
